@@ -67,7 +67,16 @@ def explore(desc, make_case, owns, signature, classify=None, sample_pred=None, m
             for k, v in ck.stats.items():
                 counters[k] = counters.get(k, 0) + v
             extra = extra_check(case, run, log, ck, fault) if (extra_check and rej is None) else None
+            own_soft = [x for x in getattr(ck, "softs", []) if owns(x[0], {})]
+            counters["soft_deviations"] = counters.get("soft_deviations", 0) + len(getattr(ck, "softs", []))
+            if own_soft and (rej is None or not owns(rej.rule, rej.flags)):
+                extra = own_soft[0]
+                rej = None
             if rej is None and extra is None:
+                if getattr(ck, "softs", None):
+                    counters["foreign_aborts"] += 1
+                    foreign[ck.softs[0][0]] = foreign.get(ck.softs[0][0], 0) + 1
+                    continue
                 for s_ in signature(case, ck, log, fault) or []:
                     sigs.add(h(s_))
                 if len(samples) < max_samples and (sample_pred is None or sample_pred(case, ck, log, fault)):
